@@ -77,3 +77,12 @@ Section PcaRandomized.
     split; [exact Hc|]. exact (pca_uncorrelated N D d X P lam HN Hc).
   Qed.
 End PcaRandomized.
+
+(* pca_embed (the five statements of embed()) is the composition the other theorems are about *)
+Section PcaEmbedChain.
+  Context {F : Type} {Fo : FieldOps F}.
+  Theorem pca_embed_is_composition (N D : nat) (X V : mat F) (v : view) :
+    pca_embed N D X V v =
+      (pca_embedding N D X (select_cols V v), (select_cols V v, mean_vec N X), pca_matrix N X).
+  Proof. reflexivity. Qed.
+End PcaEmbedChain.
